@@ -107,6 +107,8 @@ def job_parse(ses, proto, prelude, which):
             if not parses or not parses[0][1].eq(plain): ses.violation('%s: claims are not examined on the string returned by the core' % tag, {}, {'kind': 'c16'})
             if is_ok(r): n_ok += 1
         fr, kq = sp.unchanged(s2, cell, prelude)
+        for fld in getattr(sp, 'changed_extra', []):
+            ses.violation('%s writes the parser field `%s`: the outcome for later tokens can depend on this one' % (tag, fld), {}, {'kind': 'c15_history', 'proto': proto})
         if upper_obligation(ses, '%s (%s): parser state unchanged' % (tag, describe(r)), list(s2.pc) + [Not(fr)]):
             ses.violation('%s changes the parser (outcome would depend on earlier parses)' % tag, {}, {'kind': 'c15'})
     if n_ok == 0: ses.undecided.append(tag + ': no Ok path')
